@@ -163,6 +163,10 @@ class Run:
         e = Entry(self.next_eid, obj, model, op, parents)
         self.next_eid += 1
         self.pool.append(e)
+        # the export forms are part of the invariant: the memory layout an operation leaves
+        # behind (views, column-major slices) must not change what the export says
+        if model.conds and len(model.conds) >= 2 and model.rows:
+            self.check_df(e)
         return e
 
     def src(self, k):
@@ -604,6 +608,11 @@ class Run:
 
     def op_df(self, rec):
         e = self.src(rec['src'])
+        self.check_df(e)
+        self.verify_bystanders('to_df', sources=[e])
+
+    def check_df(self, e):
+        """DataFrame export of one pool member describes the same (RDM, pair) -> value table"""
         op = 'to_df'
         df = self.call(op, e.obj.to_df)
         m = e.model
@@ -617,7 +626,6 @@ class Run:
             for k, (i, j) in enumerate(pairs):
                 want[(rid, tuple(sorted((m.conds[i], m.conds[j]))), _vkey(vec[k]))] += 1
         if len(df) == 0:
-            self.verify_bystanders(op, sources=[e])
             return
         for col in ['dissimilarity', RID, CID + '_1', CID + '_2']:
             require(col in df.columns, 'to_df: column %r missing (%s)' % (col, list(df.columns)),
@@ -645,7 +653,6 @@ class Run:
             extra = list((got - want).items())[:3]
             raise Violation('to_df rows (rid, pair, value) differ from the object: missing %s, '
                             'unexpected %s' % (miss, extra), 'df:value')
-        self.verify_bystanders(op, sources=[e])
 
     def op_permute(self, rec):
         e = self.src(rec['src'])
